@@ -327,7 +327,13 @@ fn master(args: &[String]) -> i32 {
     let mut next = 0usize;
     let mut running: Vec<Running> = vec![];
     let mut broken: Vec<(usize, String)> = vec![];
+    let mut skipped_blocks = 0usize;
     while next < jobs.len() || !running.is_empty() {
+        if broken.len() >= 4 && next < jobs.len() {
+            // a shallow defect is killing blocks: stop scheduling, the run is reported as partial
+            skipped_blocks = jobs.len() - next;
+            next = jobs.len();
+        }
         while running.len() < njobs && next < jobs.len() {
             let out = format!("{work}/b{next}.json");
             let child = spawn_worker(&id, tier, &jobs[next], &out, None);
@@ -381,12 +387,23 @@ fn master(args: &[String]) -> i32 {
         }
     }
 
-    // blocks that died: trace-mode re-run, then the culprit alone
+    // blocks that died: trace-mode re-run, then the culprit alone. At most 4 are investigated
+    // (concurrently); a shallow defect typically kills many blocks the same way.
+    if broken.len() > 4 {
+        eprintln!("note: {} blocks died; investigating the first 4", broken.len());
+    }
+    let uninvestigated = broken.len().saturating_sub(4);
+    broken.truncate(4);
+    let mut reruns = vec![];
     for (j, problem) in broken {
-        let job = &jobs[j];
         let trace = format!("{work}/trace{j}.ndjson");
         let out = format!("{work}/t{j}.json");
-        let mut child = spawn_worker(&id, tier, job, &out, Some(&trace));
+        let child = spawn_worker(&id, tier, &jobs[j], &out, Some(&trace));
+        reruns.push((j, problem, trace, out, child));
+    }
+    let mut culprits = vec![];
+    for (j, problem, trace, out, mut child) in reruns {
+        let job = &jobs[j];
         let ended = wait_timeout(&mut child, limit);
         if let Ended::Ok = ended {
             // did not reproduce: absorb the result of the re-run, note the instability
@@ -402,14 +419,30 @@ fn master(args: &[String]) -> i32 {
             continue;
         };
         let case: Value = serde_json::from_str(&line).unwrap_or(json!({"raw": line}));
-        match isolated(&id, &case, &work, &format!("culprit{j}"), 60) {
-            None => inconclusive.push(format!(
-                "block {}#{}: {problem}, but the last traced case passes in isolation",
-                job.stream, job.block
-            )),
+        let _ = std::fs::remove_file(&trace);
+        culprits.push((j, problem, case));
+    }
+    let iso_limit = prop.block_timeout_s(tier).min(60);
+    let handles: Vec<_> = culprits
+        .into_iter()
+        .map(|(j, problem, case)| {
+            let (id, work) = (id.clone(), work.clone());
+            std::thread::spawn(move || {
+                let r = isolated(&id, &case, &work, &format!("culprit{j}"), iso_limit);
+                (j, problem, case, r)
+            })
+        })
+        .collect();
+    for h in handles {
+        let (j, problem, case, r) = h.join().expect("isolation thread");
+        let job = &jobs[j];
+        match r {
+            None => inconclusive.push(format!("block {}#{}: {problem}, but the last traced case passes in isolation", job.stream, job.block)),
             Some(f) => special.push((case, f, job.stream.clone())),
         }
-        let _ = std::fs::remove_file(&trace);
+    }
+    if uninvestigated > 0 && special.is_empty() {
+        inconclusive.push(format!("{uninvestigated} further blocks died and were not investigated"));
     }
 
     // classify special failures
@@ -436,6 +469,7 @@ fn master(args: &[String]) -> i32 {
     // (i.e. repaired defects and hand-kept regressions) must hold again
     let open_witnesses: HashSet<String> = known.open_for(&id).iter().map(|e| e.witness.clone()).collect();
     let mut regress = 0u64;
+    let mut regress_jobs = vec![];
     if let Ok(rd) = std::fs::read_dir(format!("{root}/findings")) {
         let mut files: Vec<_> = rd.flatten().map(|e| e.path()).filter(|p| p.extension().map(|x| x == "json").unwrap_or(false)).collect();
         files.sort();
@@ -449,17 +483,25 @@ fn master(args: &[String]) -> i32 {
                 continue;
             }
             regress += 1;
-            if let Some(fl) = isolated(&id, &w["case"], &work, &format!("regress{regress}"), 60) {
-                let is_violation = match fl.category.as_str() {
-                    "hang" => prop.hang_is_violation(),
-                    "abort" => prop.abort_is_violation(),
-                    _ => true,
-                };
-                if is_violation {
-                    violations.push(json!({"stream": format!("regress:{rel}"), "block": 0, "category": fl.category, "detail": fl.detail, "case": w["case"]}));
-                } else {
-                    inconclusive.push(format!("regress {rel}: {} ({})", fl.category, fl.detail));
-                }
+            let (id2, work2, n) = (id.clone(), work.clone(), regress);
+            regress_jobs.push(std::thread::spawn(move || {
+                let r = isolated(&id2, &w["case"], &work2, &format!("regress{n}"), iso_limit);
+                (rel, w, r)
+            }));
+        }
+    }
+    for h in regress_jobs {
+        let (rel, w, r) = h.join().expect("regress thread");
+        if let Some(fl) = r {
+            let is_violation = match fl.category.as_str() {
+                "hang" => prop.hang_is_violation(),
+                "abort" => prop.abort_is_violation(),
+                _ => true,
+            };
+            if is_violation {
+                violations.push(json!({"stream": format!("regress:{rel}"), "block": 0, "category": fl.category, "detail": fl.detail, "case": w["case"]}));
+            } else {
+                inconclusive.push(format!("regress {rel}: {} ({})", fl.category, fl.detail));
             }
         }
     }
@@ -484,7 +526,7 @@ fn master(args: &[String]) -> i32 {
         let w: Option<Value> = std::fs::read_to_string(&wpath).ok().and_then(|t| serde_json::from_str(&t).ok());
         match w {
             None => inconclusive.push(format!("known finding {}: witness {} unreadable", e.id, e.witness)),
-            Some(w) => match isolated(&id, &w["case"], &work, &format!("known-{}", e.id), 60) {
+            Some(w) => match isolated(&id, &w["case"], &work, &format!("known-{}", e.id), iso_limit) {
                 Some(_) => known_lines.push(format!("KNOWN-FINDING: property={id} {} {}", e.id, e.what)),
                 None => eprintln!("note: known finding {} no longer reproduces on this tree (witness {})", e.id, e.witness),
             },
@@ -539,6 +581,7 @@ fn master(args: &[String]) -> i32 {
             "known_finding_hits": agg.known_hits,
             "excluded_by_construction": agg.excluded,
             "regression_witnesses_replayed": regress,
+            "blocks_not_run_after_repeated_block_deaths": skipped_blocks,
             "inconclusive": inconclusive,
         },
         "assumptions": prop.assumptions(),
